@@ -120,9 +120,33 @@ func c06Run(r *core.Run) {
 	r.Eventf("world %s T0=%s", w.Describe(), T0.Format(time.RFC3339))
 
 	base := [5]time.Time{T0, T0, T0, T0, T0}
+	// The caller may carry the five instants in any location: the same instants expressed in
+	// tape-chosen fixed zones (UTC-12 .. UTC+14) must give the same verdict.
+	zoneOffs := make([]int, 64)
+	for i := range zoneOffs {
+		zoneOffs[i] = (t.Draw(27) - 12) * 3600
+		if t.Chance(1, 3) {
+			zoneOffs[i] = 0
+		}
+	}
+	zi := 0
+	inZones := func(ts [5]time.Time) [5]time.Time {
+		var out [5]time.Time
+		for f := range ts {
+			off := zoneOffs[zi%len(zoneOffs)]
+			zi++
+			if off == 0 {
+				out[f] = ts[f]
+			} else {
+				out[f] = ts[f].In(time.FixedZone(fmt.Sprintf("UTC%+d", off/3600), off))
+				r.Probe("instant_carried_in_non_utc_zone")
+			}
+		}
+		return out
+	}
 	check := func(item, kind string, a *c06Artifact, level int, ts [5]time.Time) {
 		want, why := c06Model(arts, poolWin, level, ts)
-		o := verifyRaw(raw, mkOpts(level, w.PCS, w.Pool, ts))
+		o := verifyRaw(raw, mkOpts(level, w.PCS, w.Pool, inZones(ts)))
 		r.Eval()
 		got := o.Accepted()
 		if got == want {
@@ -278,7 +302,7 @@ func init() {
 			return 24
 		},
 		Run:         c06Run,
-		MustProbe:   []string{"instant_exactly_at_expiry"},
+		MustProbe:   []string{"instant_exactly_at_expiry", "instant_carried_in_non_utc_zone"},
 		SimTimeNote: "span of simulated instants covered by the monotone timeline of each world (years)",
 	})
 }
